@@ -1,5 +1,6 @@
 // C04 - an async coroutine runs once, delivers to its bound party, frees once
 #include <scn/async.h>
+#include <scn/strings.h>
 #define RUN(name, nthreads, wd, call) if (o.want(name)) { vf::report R("C04", name, o); vf::g_active_report = &R; vf::team T(nthreads, o, wd); call; T.export_hits(R); R.write(); vf::g_active_report = nullptr; }
 int main(int argc, char **argv) {
     vf::opts o(argc, argv);
@@ -8,5 +9,6 @@ int main(int argc, char **argv) {
     RUN("async_start_race", 2, true, scn::async_start_race(o, R, T, o.cases));
     RUN("frame_owned_parties", 1, true, scn::frame_owned_parties(o, R, o.cases));
     RUN("async_reference_results", 1, true, scn::async_reference_results(o, R, o.cases));
+    RUN("async_string_results", 1, true, scn::async_string_results(o, R, o.cases));
     return 0;
 }
